@@ -28,6 +28,8 @@ DECLINED = ["'stack contents exactly as it left them' and 'a stack no other live
             "architectures other than the x86-64 System V ELF file that the build compiles"]
 ASSUMPTIONS = ["System V x86-64 calling convention", "assembler/linker preserve instruction order"]
 RULES_DOC = dict(common.SHARED_DOC)
+RULES_DOC["R7"] = "= C03.R1: a join (and so a free of the descriptor and stack) returns only after it observed TERMINATED, i.e. after the target left its stack for good"
+RULES_DOC["R8"] = "= C12.R3: a unit that is suspending is not terminated (and freed) inside its suspend callback while its context is still linked for resumption"
 RULES_DOC.update({
     "A1": "asm: complete frame (6 callee-saved regs, return address, FPU control) at the store of RSP into the old context; same layout in all savers",
     "A2": "asm: every resume sequence restores each register from its own slot, reloads FPU control, consumes the whole frame and jumps to the saved return address",
@@ -649,3 +651,6 @@ def run(P, rep, tier):
     rule_R3(P, rep)
     rule_R4_R5(P, rep)
     rule_R6(P, rep)
+    from . import C03, C12      # lazy: C12 imports this module
+    common.borrow(rep, P, C03.rule_R1, "R7")
+    common.borrow(rep, P, C12.rule_R3, "R8")
